@@ -23,6 +23,7 @@ From LZ4V Require Import Model.DecInplace Proofs.DecInplaceStep Proofs.DecInplac
 From LZ4V Require Import Proofs.DecSession.
 From LZ4V Require Import Model.DecRingWrap Proofs.DecRingMin.
 From LZ4V Require Import Proofs.DecSessionFast.
+From LZ4V Require Import Proofs.DecRingWrapStep.
 Import ListNotations.
 Local Open Scope Z_scope.
 
@@ -393,3 +394,31 @@ Print Assumptions C05_fast_continue_session_ring.
 Theorem C05_ring_margin_const : 29 <= DECODER_RING_MARGIN.
 Proof. exact ring_margin_const. Qed.
 Print Assumptions C05_ring_margin_const.
+
+(* The repaired ring buffer, live memory (Model.DecRingWrap: dictionary loads from the current contents of the
+   ring).  (1) For EVERY input: once the finished lap has at least 65535 + 31 bytes the wrap call equals
+   Model.Dec's decoder reading a snapshot of the dictionary taken before the call - a dictionary load of a
+   match at output position o reads ring positions >= o + (lap - 65535) >= o + 31, and nothing at or above
+   op + 31 has been stored at a loop boundary / above (end of literals) + 31 after the literal phase
+   (DecFootprint).  (2) Hence for every margin c >= 29 (C05_ring_margin_const: the header's is), every maxBlock
+   and every lap that makes the caller wrap (65536 + c + maxBlock - lap < maxBlock), every strictly valid block
+   decodes at the ring start to its specified content, fast loop on or off.  NOT covered (remains): the blocks
+   after the first one of a lap (prefix + external dictionary both inside the ring, live) - for those the
+   session theorem C05_continue_session_ring needs a ring of 65536 + 2*maxBlock bytes. *)
+Theorem C05_ring_wrap_eq :
+  forall (fastloop : bool) (srcm : mem) (srcSize cap E : Z) (m0 : mem),
+    (forall a, 0 <= get srcm a < 256) -> 65535 + 31 <= E ->
+    decompress_ring_wrap fastloop srcm srcSize cap E m0
+    = dec_generic fastloop false UsingExtDict srcm srcSize cap 0 0 m0 E m0.
+Proof. exact ring_wrap_eq. Qed.
+Print Assumptions C05_ring_wrap_eq.
+
+Theorem C05_ring_wrap_block :
+  forall (fastloop : bool) (c M : Z) (lap B D : list Z) (srcm m0 : mem) (cap : Z),
+    29 <= c -> 65536 + c + M - Z.of_nat (length lap) < M ->
+    strict_valid (lastn (Z.to_nat 65536) lap) B = Some D -> bytes B -> src_at srcm 0 B ->
+    (forall a, 0 <= get srcm a < 256) -> src_at m0 0 lap -> Z.of_nat (length D) <= cap ->
+    let '(r, m, k) := decompress_ring_wrap fastloop srcm (Z.of_nat (length B)) cap (Z.of_nat (length lap)) m0 in
+    r = Z.of_nat (length D) /\ forall i, 0 <= i < Z.of_nat (length D) -> get m i = nth (Z.to_nat i) D 0.
+Proof. exact ring_wrap_block. Qed.
+Print Assumptions C05_ring_wrap_block.
